@@ -279,7 +279,9 @@ fn real_main() -> Result<(), String> {
             let mut out = open_out(&args.out)?;
             let rounds = args.rounds.unwrap_or(if quick { 1 } else { 20 });
             let _ = writeln!(out, "# harness kernels --seed {seed} --rounds {rounds}");
-            kernels::run(seed, tier, args.max_len.unwrap_or(300), rounds, &mut *out)?;
+            // the quantised metrics go up to 450 components whatever --max-len says (8 words: every block size of
+            // a word-wise kernel, with a remainder)
+            kernels::run(seed, tier, args.max_len.unwrap_or(300), 450, rounds, &mut *out)?;
             out.flush().map_err(|e| e.to_string())
         }
         "bq" => {
